@@ -596,13 +596,8 @@ async def _timer(
 
     # Similar to activities (in-memory execution), but applies patches on every attempt.
     clock = asyncio.get_running_loop().time
-    state = progression.State.from_scratch().with_handlers([handler])
+    state: progression.State | None = None
     while not stopper.is_set():  # NB: ignore state.done! it is checked below explicitly.
-
-        # Reset success/failure retry counters & timers if it has succeeded. Keep it if failed.
-        # Every next invocation of a successful handler starts the retries from scratch (from zero).
-        if state.done and not state[handler.id].failure:
-            state = progression.State.from_scratch().with_handlers([handler])
 
         # Both `now` and `last_seen_time` are moving targets: the last seen time is updated
         # on every watch-event received, and prolongs the sleep. The sleep is never shortened.
@@ -612,6 +607,12 @@ async def _timer(
                 await aiotime.sleep(delay, wakeup=stopper.async_event)
             if stopper.is_set():
                 continue
+
+        # Reset success/failure retry counters & timers if it has succeeded. Keep it if failed.
+        # Every next invocation of a successful handler starts the retries from scratch (from zero).
+        # NB: only after the idle-waiting, so that the waiting does not count as the handler's runtime.
+        if state is None or (state.done and not state[handler.id].failure):
+            state = progression.State.from_scratch().with_handlers([handler])
 
         # Remember the start time for the sharp timing and idle-time-waster below.
         started = clock()
